@@ -2,8 +2,8 @@
    Only statements, closed by [exact lemma], with Print Assumptions beneath. *)
 From Coq Require Import String List NArith ZArith Bool.
 From J5V.lib Require Import Text Outcome GoExpr.
-From J5V.model Require Import BclLexer BclParser BclFmt BclLsp.
-From J5V.proofs Require Import BclPosProofs BclLexerProofs BclParserProofs BclTextProofs BclFmtProofs BclFmtFullProofs BclLspProofs BclLspClampProofs BclDocBytesProofs BclFmtGenProofs BclFmtGenAllProofs.
+From J5V.model Require Import BclLexer BclParser BclFmt BclLsp BclFmtAligned.
+From J5V.proofs Require Import BclPosProofs BclLexerProofs BclParserProofs BclTextProofs BclFmtProofs BclFmtFullProofs BclLspProofs BclLspClampProofs BclDocBytesProofs BclFmtGenProofs BclFmtGenAllProofs BclFmtDiffsIdemProofs BclTokEndProofs.
 Import ListNotations.
 Local Open Scope Z_scope.
 
@@ -146,6 +146,57 @@ Theorem C19_format_twice_is_stable : forall input out, fmt_bytes input = Ok out 
     strip_trailing_blank (apply_edits (split_on 10 out) 0 es) = strip_trailing_blank (split_on 10 out).
 Proof. exact fmt_diffs_of_output_stable. Qed.
 Print Assumptions C19_format_twice_is_stable.
+
+(* ---- FmtDiffs of formatted text (C09's idempotence seen through the edit list) -------------------------- *)
+(* full statement: the edit list offered for already formatted text is EMPTY *)
+Definition C19_formatted_no_edits_full_statement : Prop :=
+  forall x y, fmt_bytes x = Ok y -> fmt_diffs y = Ok [].
+
+(* [extent_ok ds] (boolean, BclFmtDiffsIdemProofs.v): every diff spans exactly as many lines as its own text has
+   (fd_to = fd_from + number of lines of the text).
+   Proved for EVERY input the formatter accepts: the output y is the joined text of the diffs ds the second run
+   computes from y; the START lines of ds are exact (the first diff starts on line 0, each next one on the line where
+   the previous ended, or one line later when Fmt printed an empty line: walk_stream_pos); and if extent_ok ds,
+   FmtDiffs(y) merges nothing and returns the empty list (no leading edit, no gap edit, every lines[from:to] equals
+   the diff's text).  Missing for the full statement: extent_ok itself, i.e. that a fragment read back from y ends
+   exactly (number of lines of its text - 1) lines after it starts (token END positions vs. newlines of the literal). *)
+Theorem C19_formatted_no_edits_partial : forall x y, fmt_bytes x = Ok y ->
+  exists ds, collect_fmt (utf8_decode y) = Ok ds /\ y = utf8_encode (fmt_join ds true (-1)) /\
+             (extent_ok ds = true -> fmt_diffs y = Ok []).
+Proof. exact fmt_diffs_idem_extent. Qed.
+Print Assumptions C19_formatted_no_edits_partial.
+
+(* the same under the stronger, self-contained condition [aligned ds true (-1)] (starts and extents) *)
+Theorem C19_formatted_no_edits_aligned : forall x y, fmt_bytes x = Ok y ->
+  exists ds, collect_fmt (utf8_decode y) = Ok ds /\ y = utf8_encode (fmt_join ds true (-1)) /\
+             (aligned ds true (-1) = true -> fmt_diffs y = Ok []).
+Proof. exact fmt_diffs_idem_partial. Qed.
+Print Assumptions C19_formatted_no_edits_aligned.
+
+(* first step towards extent_ok (proofs/BclTokEndProofs.v): every token AllTokens returns covers a segment of the
+   input (input = ps ++ seg ++ post, start = P ps, end = P (ps ++ seg)) and ends exactly (newlines of seg) lines
+   after it starts.  Still missing: seg of a token of formatted text has the newlines of token_source t, and the
+   sum over the tokens of a fragment. *)
+Theorem C19_token_end_exact : forall ff data ts, all_tokens ff data = LexOk ts ->
+  Forall (fun t => exists ps seg post, data = ps ++ seg ++ post /\ tstart t = P ps /\ tend t = P (ps ++ seg) /\
+                   fst (tend t) = fst (tstart t) + Z.of_nat (count_nl seg)) ts.
+Proof. exact all_tokens_end_exact. Qed.
+Print Assumptions C19_token_end_exact.
+
+(* the loop-level fact, for any diff list whose texts end with a newline (no parser involved) *)
+Theorem C19_aligned_diffs_no_edits : forall ms,
+  Forall (fun m => exists x, utf8_encode (fd_text m) = x ++ [10%N]) ms ->
+  aligned ms true (-1) = true ->
+  fmt_diffs_of (utf8_encode (fmt_join ms true (-1))) ms = Ok [].
+Proof. exact fmt_diffs_of_aligned. Qed.
+Print Assumptions C19_aligned_diffs_no_edits.
+
+(* non-vacuity: the C19_example document; its formatted text has an empty line, a trailing comment, two fragments
+   from one source line; the second run's diffs are aligned and the edit list is empty *)
+Example C19_formatted_no_edits_example :
+  let src := [10;10;97;32;98;32;47;47;32;99;10;32;32;10;120;61;49;10;125;32;47;47;32;99;10]%N in
+  exists y ds, fmt_bytes src = Ok y /\ collect_fmt (utf8_decode y) = Ok ds /\ length ds = 4%nat /\ extent_ok ds = true /\ aligned ds true (-1) = true /\ fmt_diffs y = Ok [].
+Proof. cbv zeta. do 2 eexists. split; [vm_compute; reflexivity|]. split; [vm_compute; reflexivity|]. repeat split; vm_compute; reflexivity. Qed.
 
 (* ---- the model is the code (tie) ---------------------------------------------------------------------- *)
 (* FmtDiffs' merge loop and edit loop and lineSet.rangeLines, run on the conditions, FmtDiff literals and
